@@ -58,7 +58,7 @@ func runC03(c *Ctx) {
 		th := jsonMoreHits(tp, tp.Funcs)
 		c.check(len(th) >= 1, "R1", "positive-example", "checker/testdata/jsonmore", "the matcher fires on the positive example", "the matcher does not fire on the positive example: the zero-count rule is blind")
 	}
-	ep := p.LangFunc("EvalProgram")
+	ep := p.DriverFunc()
 	if ep == nil {
 		c.undecided("R1", "EvalProgram", "", "anchor not found")
 		return
